@@ -70,7 +70,8 @@ class Act(Action):
         boom("action")
 '''
 
-PROGRAM = '''from vfault import boom, readback, setprop, Act
+PROGRAM = '''model vfaultmodel
+from vfault import boom, readback, setprop, Act
 
 behavior Sub():
     precondition: boom("guard")
@@ -155,6 +156,7 @@ SITES = {
     # site: ending kinds that make sense there
     "requirement": ["user", "reject", "false"],
     "specifier": ["user", "reject"],
+    "model": ["user", "reject"],          # a failure while the world model is being imported
     "setup": ["user", "rejectsim"],
     "compose": ["user", "rejectsim"],
     "behavior": ["user", "rejectsim"],
@@ -173,7 +175,7 @@ SITES = {
     #  rest of the finally clause by construction; not injected)
 }
 SIM_SITES = {"create", "step", "read"}
-GEN_SITES = {"requirement", "specifier"}
+GEN_SITES = {"requirement", "specifier", "model"}
 
 _state = {}
 
@@ -192,6 +194,8 @@ def _install(scratch_dir):
         os.makedirs(path, exist_ok=True)
         with open(os.path.join(path, "vfault.py"), "w") as f:
             f.write(HELPER)
+        with open(os.path.join(path, "vfaultmodel.scenic"), "w") as f:     # the world model of the template
+            f.write('from vfault import boom\nboom("model")\nparam modelLoaded = 1\n')
         sys.path.insert(0, path)
     import vfault
 
@@ -456,6 +460,7 @@ def _job(item):
         st, _sc, _scene = _compile_generate(vfault, text, tuple(plan))
         after = {k: repr(getattr(veneer, k, None)) for k in VENEER_GLOBALS}
         out["fault_outcome"] = st
+        out["fired"] = st != "ok"      # (the counters are reset by the follow-up operation)
         out["snap_equal"] = before == after
         out["snap_diff"] = {k: [before[k], after[k]] for k in before if before[k] != after[k]}
         out["reuse"] = _reuse(vfault, "recompile", text, None, None)
@@ -564,7 +569,7 @@ def main(tier):
     )
     ck.assumptions += [
         "two program variants built around one template (nested scenarios with overrides, behaviour with try/interrupt and "
-        "sub-behaviour, monitor, record, requirement); model import faults are not injected",
+        "sub-behaviour, monitor, record, requirement, a world model imported with the `model` statement)",
         "the projection of the interpreter state is the list of veneer globals named in the property's anchors, every "
         "tracked property of every scene object, proxy identity and the run flags of scenario/behaviours/monitors",
         "follow-up digests are compared with the digest obtained in a child process that never ran a faulty simulation",
@@ -646,7 +651,7 @@ def main(tier):
     traces, trace_owner = [], []
     for job, r in zip(jobs, results):
         v, plan, op = job
-        fired = r.get("counts", {}).get(plan[0], 0) >= plan[1]
+        fired = r["fired"] if "fired" in r else r.get("counts", {}).get(plan[0], 0) >= plan[1]
         ck.case((v, tuple(plan), op), fired)
         if "error" in r:
             raise MachineryError(str(r))
